@@ -178,7 +178,7 @@ def make_rough_component(rng, nx, na, ny, levels, kpl):
     return comp, fns
 
 
-def grow(rng, comp, na, mx, steps, through_executor=False):
+def grow(rng, comp, na, mx, steps, through_executor=False, widen_first_input=False):
     active = set()
     ex = saved = None
     if through_executor:      # the evaluations of every batch (mixed fidelities) as separate tasks, completed in a random order
@@ -186,11 +186,15 @@ def grow(rng, comp, na, mx, steps, through_executor=False):
         ex = c15.SchedExecutor(lambda m, _r=_random.Random(rng.getrandbits(30)): _r.sample(range(m), m))
         saved = c15.install_wait(ex)
     try:
-        for _ in range(steps):
+        for k_ in range(steps):
             m = margin(active, mx)
             if not m:
                 break
             c = rng.choice(m)
+            if widen_first_input and k_ == 2:      # better bounds became known in the middle of the history: later grids grow on the new domain
+                v0 = list(comp.inputs)[0]
+                lo_, hi_ = v0.get_domain()
+                v0.update_domain((lo_ - 1.5 * (hi_ - lo_), hi_ + 0.5 * (hi_ - lo_)))
             comp.activate_index(tuple(c[:na]), tuple(c[na:]), executor=ex)
             active.add(c)
     finally:
@@ -222,8 +226,9 @@ def component_cases(ctx: Ctx):
             fns[:] = [rough_fn({'c0': rng.randint(-2, 2) / 2, 't': [(rng.randint(-3, 3) / 2, rng.random(), rng.randint(-2, 2) / 4) for _ in range(nx)],
                                 'a': [rng.randint(1, 3) / 4 for _ in range(na)]}) for _ in range(ny)]
         via_ex = n % 4 == 1      # every fourth component is trained through an executor
-        active = grow(rng, comp, na, mx, rng.randint(1, 6 if nx < 3 else 4), through_executor=via_ex)
-        case0 = {'nx': nx, 'na': na, 'ny': ny, 'kpl': kpl, 'levels': levels, 'active': sorted(active), 'object_reused_after_clear': reused, 'trained_through_executor': via_ex}
+        widened = n % 5 == 2 and all(not v.norm for v in comp.inputs)
+        active = grow(rng, comp, na, mx, rng.randint(3 if widened else 1, 6 if nx < 3 else 4), through_executor=via_ex, widen_first_input=widened)
+        case0 = {'nx': nx, 'na': na, 'ny': ny, 'kpl': kpl, 'levels': levels, 'active': sorted(active), 'object_reused_after_clear': reused, 'trained_through_executor': via_ex, 'first_input_domain_widened_mid_history': widened}
         td = comp.training_data
         for mode in ('train', 'test'):
             iset = comp.active_set if mode == 'train' else comp.active_set.union(comp.candidate_set)
